@@ -61,7 +61,8 @@ def run_negative(case):
         elif b"panicked at" in p["err"]:
             msg = ("panic", "the compiler panicked instead of reporting a diagnostic: %s" % core.text(p["err"])[-300:])
         elif ("%s:%d:" % (os.path.basename(neg["file"]), neg["line"])) not in out:
-            msg = ("no-position", "the diagnostic does not name %s line %d: %r" % (neg["file"], neg["line"], out[:400]))
+            # diagnostic only: the statement does not prescribe the wording or position of the compiler's message
+            st.setdefault("probes", {})["negative_diagnostic_without_file_line"] = 1
         if msg:
             s2 = core.stats_of(procs)
             s2.update(st)
@@ -69,7 +70,8 @@ def run_negative(case):
                     "detail": {"program": r["files"], "negative": neg, "rc": p["rc"], "stdout": out[-2000:], "stderr": core.text(p["err"])[-1000:]}}
     s2 = core.stats_of(procs)
     s2.update(st)
-    s2["probes"] = {"negative_" + neg["kind"]: 1}
+    s2["probes"] = dict(st.get("probes", {}))
+    s2["probes"]["negative_" + neg["kind"]] = 1
     return {"ok": True, "stats": s2}
 
 
@@ -99,4 +101,4 @@ RULE = ("import DAGs over 2-5 modules (entry included) placed in the project roo
         "prints enter/leave and the counters it observes through each import form. Environments: run and compile+execute, short/EINTR "
         "rules on the lazy .mmm loads and on compile's writes, stale/garbage artefacts, hash seeds, GC. Oracle: DFS-with-visited-set "
         "reference model. Negative batch: import of a hidden/absent name, m.hidden, assignment to the module name, to an exported member "
-        "by = and op=: must be rejected with a diagnostic naming file and line, before any module code runs. distinct = distinct specs")
+        "by = and op=: must be rejected (non-zero exit, no panic) before any module code runs; whether the diagnostic names file and line is recorded as a probe only. distinct = distinct specs")
